@@ -240,7 +240,7 @@ MUTANTS = [
     ("chooser-jvp-selects-greater-equal", {"C04": "A5.mask"}, [(NJ, "    chosen_locations = x == ans\n", "    chosen_locations = anp.isclose(x, ans)\n")]),
     ("astype-vjp-no-cast-back", {"C05": "A4.match", "C09": "A4.match"}, [(NV, "    lambda ans, A, dtype, order=\"K\", casting=\"unsafe\", subok=True, copy=True: lambda g: anp._astype(\n        g, A.dtype\n    ),", "    lambda ans, A, dtype, order=\"K\", casting=\"unsafe\", subok=True, copy=True: lambda g: g,")]),
     ("array-of-list-drops-options", {"C06": "A6.optpack"}, [(NW, "        return array_from_args(args, kwargs, *map(array, A))", "        return array_from_args((), {}, *map(array, A))")]),
-    ("kron-vjp-reverses-captured-shape-in-place", {"C10": "A10"}, [(NV, "        shape = list(A.shape + B.shape)\n        n = anp.ndim(A)\n        shape[n - 1], shape[n] = shape[n], shape[n - 1]", "        n = anp.ndim(A)\n        orig_A_shape[0], orig_B_shape[0] = orig_B_shape[0], orig_A_shape[0]\n        shape = list(A.shape + B.shape)\n        shape[n - 1], shape[n] = shape[n], shape[n - 1]")]),
+    ("kron-vjp-reverses-captured-shape-in-place", {"C10": "A10"}, [(NV, "    def vjp(G):\n        A, B = anp.reshape(orig_A, A_shape), anp.reshape(orig_B, B_shape)", "    dims = list(A_shape)\n\n    def vjp(G):\n        dims.reverse()\n        A, B = anp.reshape(orig_A, tuple(dims)[::-1] if dims[:1] != list(A_shape[:1]) else A_shape), anp.reshape(orig_B, B_shape)")]),
     ("jvp-node-unboxes-answer", {"C08": "A2.slot"}, [(CO, "        self.g = jvpmaker(parent_argnums, parent_gs, value, args, kwargs)", "        self.g = jvpmaker(parent_argnums, parent_gs, getval(value), args, kwargs)")]),
     ("det-vjp-sums-cotangent-over-the-stack", {"C01": "A3.batch"}, [(LA, "defvjp(det, lambda ans, x: lambda g: add2d(g) * add2d(ans) * T(inv(x)))", "defvjp(det, lambda ans, x: lambda g: anp.sum(g) * add2d(ans) * T(inv(x)))")]),
     ("dict-space-equality-by-shape-only", {"C13": "A1.members"}, [(BU, "class DictVSpace(ContainerVSpace):\n    def _values(self, x):", "class DictVSpace(ContainerVSpace):\n    def __eq__(self, other):\n        return self.shape == getattr(other, \"shape\", None)\n\n    def _values(self, x):")]),
@@ -280,6 +280,7 @@ MUTANTS = [
     ("outer-gradient-reshaped-to-the-other-argument", {"C05": "A3.restore"}, [(NV, "    lambda ans, a, b: lambda g: match_complex(a, anp.reshape(anp.dot(g, anp.ravel(b)), anp.shape(a))),", "    lambda ans, a, b: lambda g: match_complex(a, anp.reshape(anp.dot(g, anp.ravel(b)), anp.shape(b))),")]),
     ("diag-gradient-square-for-every-matrix", {"C05": "A3.restore", "C01": "A3.restore"}, [(NV, "        padded = anp.pad(square, ((0, max(rows - size, 0)), (0, max(cols - size, 0))), mode=\"constant\")\n        return padded[:rows, :cols]", "        return square")]),
     ("tile-reps-numbered-from-axis-zero", {"C01": "A3.rank", "C05": "A3.rank"}, [(NV, "        for axis, rep in enumerate(reps, first_axis):", "        for axis, rep in enumerate(reps):")]),
+    ("kron-operands-promoted-separately", {"C01": "A3.rank"}, [(NV, "    ndim = max(anp.ndim(orig_A), anp.ndim(orig_B))\n", "    ndim = 2\n    orig_A, orig_B = anp.atleast_2d(orig_A), anp.atleast_2d(orig_B)\n")]),
 ]
 
 BENIGN = [
@@ -298,7 +299,7 @@ BENIGN = [
     ("clip-vjp-mask-strict-inequalities", [(NV, "unbroadcast_f(x, lambda g: g * anp.logical_and(ans != a_min, ans != a_max))", "unbroadcast_f(x, lambda g: g * anp.logical_and(ans > a_min, ans < a_max))")]),
     ("chooser-vjp-mask-via-equal", [(NV, "        argmax_locations = x == repeat_to_match_shape(ans, shape, dtype, axis, keepdims)[0]", "        argmax_locations = anp.equal(x, repeat_to_match_shape(ans, shape, dtype, axis, keepdims)[0])")]),
     ("array-of-list-comprehension", [(NW, "        return array_from_args(args, kwargs, *map(array, A))", "        return array_from_args(args, kwargs, *[array(a) for a in A])")]),
-    ("kron-vjp-swap-on-local-copy", [(NV, "        shape[n - 1], shape[n] = shape[n], shape[n - 1]", "        shape[n], shape[n - 1] = shape[n - 1], shape[n]")]),
+    ("kron-vjp-interleaved-sizes-grown-in-a-local-list", [(NV, "        interleaved = [size for sizes in zip(A_shape, B_shape) for size in sizes]", "        interleaved = []\n        for sizes in zip(A_shape, B_shape):\n            interleaved.extend(sizes)")]),
     ("astype-vjp-cast-by-method", [(NV, "    lambda ans, A, dtype, order=\"K\", casting=\"unsafe\", subok=True, copy=True: lambda g: anp._astype(\n        g, A.dtype\n    ),", "    lambda ans, A, dtype, order=\"K\", casting=\"unsafe\", subok=True, copy=True: lambda g: anp._astype(g, anp.result_type(A)),")]),
     ("diagonal-vjp-moveaxis-correct", [(NV, "lambda ans, A, offset=0, axis1=0, axis2=1: lambda g: anp.make_diagonal(g, offset, axis1, axis2),", "lambda ans, A, offset=0, axis1=0, axis2=1: lambda g: anp.moveaxis(anp.make_diagonal(g, offset, axis1=-1, axis2=-2), (-1, -2), (axis1, axis2)),")]),
     ("index-order-A-by-isfortran", [(NV, "    flags = onp.asarray(getval(x)).flags\n    if flags.c_contiguous:", "    if order == \"A\":\n        return \"F\" if onp.isfortran(onp.asarray(getval(x))) else \"C\"\n    flags = onp.asarray(getval(x)).flags\n    if flags.c_contiguous:")]),
@@ -372,6 +373,7 @@ BENIGN = [
     ("tril-triu-rules-from-one-factory", [(NV, "defvjp(anp.triu, lambda ans, x, k=0: unbroadcast_f(x, lambda g: anp.triu(g, k=k)))\ndefvjp(anp.tril, lambda ans, x, k=0: unbroadcast_f(x, lambda g: anp.tril(g, k=k)))", "def _triangle_rule(tri):\n    return lambda ans, x, k=0: unbroadcast_f(x, partial(tri, k=k))\n\n\nfor _tri in (anp.triu, anp.tril):\n    defvjp(_tri, _triangle_rule(_tri))")]),
     ("diag-crop-written-with-slice-objects", [(NV, "        return padded[:rows, :cols]", "        return padded[slice(None, rows), slice(None, cols)]")]),
     ("tile-reps-offset-from-the-answers-rank", [(NV, "    first_axis = max(len(x_shape) - len(reps), 0)", "    first_axis = anp.ndim(ans) - len(reps)")]),
+    ("kron-common-rank-from-the-answer", [(NV, "    ndim = max(anp.ndim(orig_A), anp.ndim(orig_B))\n", "    ndim = anp.ndim(ans)\n")]),
 ]
 
 
@@ -392,9 +394,12 @@ def _kept_patches():
         own = sid.split("-")[0]
         if sid.startswith("C") and os.path.exists(pd) and os.path.exists(evf):
             try:
-                fired = json.load(open(evf)).get("checks_fired", {})
+                ev_ = json.load(open(evf))
+                fired = ev_.get("checks_fired", {})
             except Exception:
                 continue
+            if ev_.get("neutralised_by"):
+                continue  # the rule the seed modified was rewritten by a later fix: nothing left to apply the patch to
             if own in fired and fired[own].get("exit", 1) == 1:
                 muts.append((f"seeded/{sid}", {own: ""}, [("<patch>", pd, "")]))
     bdir = os.path.join(base, "benign")
